@@ -137,6 +137,121 @@ def case_histories(case):
                    closed=r["closed"])  # fmt: skip
 
 
+# --------------------------------------------------------------------------- histories on builtin megacomplexes
+def builtin_scheme(name):
+    from vf.gen import builtin_models as B
+
+    t = np.concatenate([np.linspace(-1, 1, 21), np.geomspace(1.2, 50, 12)])
+    g = np.array([600.0, 620.0, 650.0, 700.0])
+    if name == "dispersed_irf_artifact_oscillation":
+        md = {
+            "megacomplex": {"m1": {"type": "decay-parallel", "compartments": ["s1", "s2", "s3"], "rates": ["k.1", "k.2", "k.3"]},
+                            "m2": {"type": "coherent-artifact", "order": 3},
+                            "m3": {"type": "damped-oscillation", "labels": ["o1"], "frequencies": ["osc.f"], "rates": ["osc.r"]}},
+            "irf": {"irf1": {"type": "spectral-multi-gaussian", "center": ["irf.c"], "width": ["irf.w1", "irf.w2"], "scale": ["irf.s1", "irf.s2"],
+                             "dispersion_center": "irf.dc", "center_dispersion_coefficients": ["irf.d1", "irf.d2"],
+                             "width_dispersion_coefficients": ["irf.wd1"]}},
+            "dataset": {"d1": {"megacomplex": ["m1", "m2", "m3"], "irf": "irf1"}, "d2": {"megacomplex": ["m1", "m3"], "irf": "irf1", "scale": "sc.2"}},
+        }  # fmt: skip
+        vals = {"k.1": 0.11, "k.2": 1.3, "k.3": 7.0, "irf.c": 0.1, "irf.w1": 0.12, "irf.w2": 0.4, "irf.s1": 1.0, "irf.s2": 0.3,
+                "irf.dc": 650.0, "irf.d1": 0.2, "irf.d2": -0.05, "irf.wd1": 0.02, "osc.f": 35.0, "osc.r": 0.4, "sc.2": 1.7}  # fmt: skip
+        data = {"d1": B.noisy_dataset(t, g), "d2": B.noisy_dataset(t, g[1:] + 5.0, salt="d2")}
+    elif name == "general_decay_no_irf_penalty":
+        tt = t[t >= 0]
+        md = {
+            "megacomplex": {"m1": {"type": "decay", "k_matrix": ["km"]}, "m2": {"type": "baseline", "dimension": "time"}},
+            "k_matrix": {"km": {"matrix": {"s2<-s1": "k.1", "s2<-s2": "k.2", "s1<-s1": "k.3"}}},
+            "initial_concentration": {"j": {"compartments": ["s1", "s2"], "parameters": ["j.1", "j.2"]}},
+            "dataset": {"d1": {"megacomplex": ["m1", "m2"], "initial_concentration": "j"}},
+            "clp_relations": [{"source": "s1", "target": "s2", "parameter": "rel.p", "interval": (600.0, 650.0)}],
+            "clp_penalties": [{"type": "equal_area", "source": "s1", "source_intervals": [(600.0, 700.0)], "target": "s2",
+                               "target_intervals": [(600.0, 700.0)], "parameter": "pen.p", "weight": 0.3}],
+        }  # fmt: skip
+        vals = {"k.1": 0.9, "k.2": 0.05, "k.3": 0.2, "j.1": 1.0, "j.2": 0.0, "rel.p": 0.6, "pen.p": 1.4}
+        data = {"d1": B.noisy_dataset(tt, g)}
+    else:  # full model with spectral shapes
+        tt = t[t >= 0]
+        md = {
+            "megacomplex": {"m1": {"type": "decay-sequential", "compartments": ["s1", "s2"], "rates": ["k.1", "k.2"]},
+                            "mg": {"type": "spectral", "shape": {"s1": "sh1", "s2": "sh2"}}},
+            "shape": {"sh1": {"type": "gaussian", "amplitude": "sh.a", "location": "sh.l1", "width": "sh.w"},
+                      "sh2": {"type": "skewed-gaussian", "location": "sh.l2", "width": "sh.w", "skewness": "sh.b"}},
+            "dataset": {"d1": {"megacomplex": ["m1"], "global_megacomplex": ["mg"], "spectral_axis_scale": 2.0}},
+        }  # fmt: skip
+        vals = {"k.1": 1.1, "k.2": 0.07, "sh.a": 2.0, "sh.l1": 1240.0, "sh.l2": 1340.0, "sh.w": 90.0, "sh.b": 0.2}
+        data = {"d1": B.noisy_dataset(tt, g)}
+    options = {l: {"vary": False} for l in vals if l.startswith(("j.", "irf.s", "irf.dc"))}
+    return B.make_scheme(md, vals, data, options=options)
+
+
+def builtin_vector(x0, k):
+    if k == RAISE_EVENT:
+        x = np.array(x0)
+        x[0] = -1e4  # a hugely negative first rate overflows the concentrations: the decay megacomplex raises ValueError
+        return x
+    return np.asarray(x0) * (1.0 + 0.013 * k * (1 + np.arange(len(x0)) % 3))
+
+
+def builtin_replay(name, history, fresh):
+    from glotaran.optimization.optimizer import Optimizer
+
+    scheme = builtin_scheme(name)
+    snap = snapshot_scheme(scheme)
+    opt = Optimizer(scheme, verbose=False, raise_exception=True)
+    labels, x0, _, _ = scheme.parameters.get_label_value_and_bounds_arrays(exclude_non_vary=True)
+    opt._free_parameter_labels = labels
+
+    def ev(o, k):
+        try:
+            with warnings.catch_warnings():
+                warnings.simplefilter("ignore")
+                return np.array(o.objective_function(builtin_vector(x0, k)), dtype=float)
+        except (ValueError, FloatingPointError, OverflowError, np.linalg.LinAlgError) as e:
+            return "raised:" + type(e).__name__
+
+    vs = []
+    out = None
+    for i, k in enumerate(history):
+        out = ev(opt, k)
+        if i == len(history) - 1:
+            if k not in fresh:
+                o2 = Optimizer(builtin_scheme(name), verbose=False, raise_exception=True)
+                o2._free_parameter_labels = labels
+                fresh[k] = ev(o2, k)
+            want = fresh[k]
+            if isinstance(want, str) or isinstance(out, str):
+                if want != out if isinstance(want, str) and isinstance(out, str) else True:
+                    vs.append(V("evaluation-raises-depending-on-history", vector=k, got=str(out)[:40], want=str(want)[:40], scheme=name))
+            elif out.shape != want.shape or not np.array_equal(out, want, equal_nan=True):
+                vs.append(V("penalty-depends-on-evaluation-history", vector=k, scheme=name,
+                            max_abs=float(np.nanmax(np.abs(out - want))) if out.shape == want.shape else None))  # fmt: skip
+    changed = diff_snapshots(snap, snapshot_scheme(scheme))
+    if changed:
+        vs.append(V("optimizer-changed-callers-scheme", changed=changed, scheme=name))
+    return deep_digest(opt, exclude=EXCLUDE), vs, {"outcome": out if isinstance(out, str) or out is None else core.digest(np.nan_to_num(out).tolist())}
+
+
+def case_builtin_histories(case):
+    fresh: dict = {}
+    events = list(range(N_VECTORS)) + [RAISE_EVENT]
+    r = bfs(lambda h, info: events, lambda h: builtin_replay(case["scheme"], h, fresh), case["depth"])
+    vs = []
+    for v in r["violations"]:
+        hh = v.pop("history")
+        vs.append(dict(v, func="builtin_history", case={"scheme": case["scheme"], "history": hh}))
+    raised = any(isinstance(o, str) and "raised" in o for o in r["outcomes"])
+    return core.ok(key=case["scheme"], outcome={"states": r["states"], "closed": r["closed"], "raising_vector_raises": raised}, violations=vs,
+                   states=r["states"], transitions=r["transitions"], traces=r["transitions"], max_depth=r["max_depth"], closed=r["closed"])  # fmt: skip
+
+
+def case_builtin_history(case):
+    dg, vs, info = builtin_replay(case["scheme"], case["history"], {})
+    return core.ok(key=dg, outcome=str(info["outcome"])[:40], violations=vs)
+
+
+BUILTIN_SCHEMES = ["dispersed_irf_artifact_oscillation", "general_decay_no_irf_penalty", "full_model_spectral"]
+
+
 def case_history(case):
     spec = F.make_spec(case["opts"], variant=0, seed=case.get("seed", 0))
     _FRESH.clear()
@@ -223,7 +338,7 @@ def case_optimize_twice(case):
 from vf.checks.c10_kernels import case_kernel  # noqa: E402
 
 CASE_FUNCS = {"histories": case_histories, "history": case_history, "optimize_twice": case_optimize_twice,
-              "kernel": case_kernel}  # fmt: skip
+              "kernel": case_kernel, "builtin_histories": case_builtin_histories, "builtin_history": case_builtin_history}  # fmt: skip
 
 
 def run(run: core.Run):
@@ -235,6 +350,7 @@ def run(run: core.Run):
     opts = list({core.digest(o): o for o in opts}.values())
     run.bounds = {"history_depth": depth, "vectors": N_VECTORS, "raising_vector": 1, "schemes_t_way": t}
     run.map("histories", [{"opts": o, "depth": depth, "seed": run.seed} for o in opts])
+    run.map("builtin_histories", [{"scheme": n, "depth": depth} for n in BUILTIN_SCHEMES])
     ot = []
     ot_axes = ["layout", "weights", "full", "link", "nds", "residual", "constraints", "penalty"]
     for o in F.t_way(2, ot_axes) if quick else F.t_way(2, axes):
